@@ -15,7 +15,87 @@ def run(ctx):
     netprops.op_level(ctx, res, PROP, ctx.budget(350, 18000, 500), profile={"cbfail": 0.2})
     netprops.run_scenarios(ctx, res, netprops.scenario_callback_error, ctx.budget(120, 30000, 400), "cberr")
     netprops.run_scenarios(ctx, res, netprops.scenario_close, ctx.budget(120, 30000, 400), "close")
+    error_text_probe(ctx, res)
     return res
+
+
+ERROR_MESSAGES = ["plain", "ünï-cödé ✓", "lone surrogate \udcff in the message", "\ud800", "nul\x00byte", "x" * 300000, ""]
+
+
+def error_text_probe(ctx, res):
+    """Process level: whatever the text of the failure is, it surfaces as a RemoteError naming the exception type — for a failing
+    body and for a failing callback — within seconds, and the gateway stays usable (a sibling exec runs afterwards).  Also: a
+    remote_exec whose task the worker cannot decode (a channel among the keyword arguments) is a RemoteError on that channel,
+    not the end of the connection."""
+    execnet = ctx.execnet
+    gb = execnet.gateway_base
+    group = execnet.Group()
+    try:
+        gw = group.makegateway("popen")
+        for kind in ("body", "callback"):
+            for msg in ERROR_MESSAGES:
+                case = {"probe": "error-text", "where": kind, "message": ascii(msg)[:60]}
+                res.count(("error-text", kind, ascii(msg)[:60]))
+                if kind == "body":
+                    ch = gw.remote_exec("channel.send(1)\nraise ValueError(%r)\n" % (msg,))
+                else:
+                    ch = gw.remote_exec("def cb(x):\n    raise ValueError(%r)\nchannel.setcallback(cb)\nchannel.send('ready')\nimport time\ntime.sleep(0.5)\n" % (msg,))
+                what = None
+                try:
+                    first = ch.receive(10)
+                    if kind == "callback":
+                        ch.send("trigger")  # the worker-side callback raises: its side closes the channel with the error
+                    try:
+                        ch.waitclose(10)
+                        what = "the failure (%s, message %s) never surfaced: channel closed without an error" % (kind, ascii(msg)[:40])
+                    except gb.RemoteError as e:
+                        if "ValueError" not in str(e):
+                            what = "RemoteError does not name the exception type: %s" % str(e)[-120:]
+                    except gb.TimeoutError:
+                        what = "the failure (%s, message %s) never surfaced: waitclose timed out after 10 s" % (kind, ascii(msg)[:40])
+                    del first
+                except Exception as e:  # noqa: BLE001
+                    what = "unexpected %r" % (e,)
+                if what is None and not gw.hasreceiver():
+                    what = "the gateway stopped receiving after a failure with message %s" % ascii(msg)[:40]
+                if what:
+                    res.violations.append(dict(case=case, what=what))
+                    return
+                res.traces += 1
+        # a task the worker cannot decode
+        case = {"probe": "undecodable-task"}
+        res.count(("undecodable-task",))
+        other = gw.newchannel()
+        what = None
+        try:
+            ch = gw.remote_exec(_takes_channel, other=other)
+            try:
+                ch.receive(10)
+                what = None  # a worker that can decode it and runs the function is fine as well
+            except gb.RemoteError:
+                pass
+            except (EOFError, gb.TimeoutError) as e:
+                what = "remote_exec(function, other=<Channel>) ended with %r instead of a RemoteError (or a local rejection)" % (e,)
+        except (ValueError, gb.DumpError, TypeError):
+            pass  # rejected locally: fine
+        if what is None:
+            try:
+                if gw.remote_exec("channel.send(42)").receive(10) != 42:
+                    what = "sibling exec after the undecodable task answered wrongly"
+            except Exception as e:  # noqa: BLE001
+                what = "the gateway is unusable after a remote_exec with a channel among the keyword arguments: %r" % (e,)
+        if what:
+            res.violations.append(dict(case=case, what=what))
+        else:
+            res.traces += 1
+    except Exception as e:  # noqa: BLE001
+        res.violations.append(dict(case={"probe": "error-text"}, what="probe failed: %r" % (e,)))
+    finally:
+        group.terminate(timeout=2.0)
+
+
+def _takes_channel(channel, other):
+    channel.send(other.id)
 
 
 def search(ctx, prev):
